@@ -227,6 +227,27 @@ func (C10) Generate(rng *rand.Rand, tier string) []core.Case {
 	if len(ops) > 0 {
 		cases = append(cases, core.Case{Name: "codec-last", Ops: ops})
 	}
+	// a crash that damages one uncommitted entry and leaves the later ones intact; then an append and a restart
+	ns := 6
+	if tier == "thorough" {
+		ns = 150
+	}
+	var sops []string
+	for i := 0; i < ns; i++ {
+		n := 4 + rng.Intn(8)
+		tear := 1 + rng.Intn(n-2)
+		commit := tear - 1 - rng.Intn(2)
+		if commit < 0 {
+			commit = 0
+		}
+		mode := []string{"flip", "zero"}[rng.Intn(2)]
+		sops = append(sops, fmt.Sprintf("cw.stale n=%d tear=%d commit=%d mode=%s same=%d", n, tear, commit, mode, rng.Intn(3)/2+rng.Intn(2)%1))
+		if len(sops) == 6 {
+			cases = append(cases, core.Case{Name: fmt.Sprintf("wal-stale-%d", i), Ops: sops})
+			sops = nil
+		}
+	}
+	cases = append(cases, core.Case{Name: "wal-stale-directed", Ops: append(sops, "cw.stale n=9 tear=6 commit=5 mode=flip same=1", "cw.stale n=9 tear=6 commit=5 mode=zero same=1", "cw.stale n=9 tear=6 commit=5 mode=flip same=0")})
 	// a syncing WAL across segment boundaries: what is reported as synced has been msync'ed
 	np := 12
 	if tier == "thorough" {
@@ -377,6 +398,93 @@ func c10op(op string) string {
 			return fmt.Sprintf("synced=%d durable=ok", synced)
 		}
 		return fmt.Sprintf("synced=%d durable=%d", synced, durable)
+	case "cw.stale":
+		// cw.stale n=9 tear=6 commit=5 mode=flip|zero same=1: n entries of equal size are appended and synced;
+		// a crash damages entry `tear` (a flipped payload byte, or the whole record zeroed) and leaves the later
+		// ones intact; the WAL is reopened (commit offset `commit`), one new entry is appended where the log
+		// now ends (same size as the old one or 3 bytes longer), and the WAL is reopened again
+		powerMu.RLock()
+		defer powerMu.RUnlock()
+		kv := c20kv(f)
+		var n, tear, commit int
+		fmt.Sscan(kv["n"], &n)
+		fmt.Sscan(kv["tear"], &tear)
+		fmt.Sscan(kv["commit"], &commit)
+		dir, err := os.MkdirTemp(workTmp(), "c10s-")
+		if err != nil {
+			return "err:other:" + err.Error()
+		}
+		defer os.RemoveAll(dir)
+		opts := &wal.FactoryOptions{BaseWalDir: dir, Retention: time.Hour, SegmentSize: 8192, SyncData: true}
+		prov := &commitProvider{off: int64(commit)}
+		open := func() (wal.Wal, error) {
+			return wal.VerifNewWal("ns", 1, opts, prov, &time2.MockedClock{}, 24*time.Hour)
+		}
+		w, err := open()
+		if err != nil {
+			return "err:other:" + strings.ReplaceAll(err.Error(), " ", "_")
+		}
+		for i := 0; i < n; i++ {
+			if err := w.AppendAsync(&proto.LogEntry{Term: 1, Offset: int64(i), Value: []byte(fmt.Sprintf("old-%04d", i))}); err != nil {
+				w.Close()
+				return "err:append"
+			}
+		}
+		_ = w.Sync(context.Background())
+		_ = w.Close()
+		files, _ := filepath.Glob(filepath.Join(dir, "ns", "shard-1", "*.txnx"))
+		if len(files) != 1 {
+			return "err:files"
+		}
+		b, err := os.ReadFile(files[0])
+		if err != nil {
+			return "err:read"
+		}
+		find := func(s string) int { return strings.Index(string(b), s) }
+		p0, p1 := find("old-0000"), find("old-0001")
+		pt := find(fmt.Sprintf("old-%04d", tear))
+		if p0 < 0 || p1 < 0 || pt < 0 {
+			return "err:layout"
+		}
+		rec := p1 - p0
+		if kv["mode"] == "zero" {
+			start := pt - (p0 % rec) // the record starts where its header starts
+			hdr := p0                // header + protobuf prefix bytes before the value in record 0
+			start = pt - hdr
+			for i := start; i < start+rec && i < len(b); i++ {
+				b[i] = 0
+			}
+		} else {
+			b[pt] ^= 0xff
+		}
+		if err := os.WriteFile(files[0], b, 0o644); err != nil {
+			return "err:write"
+		}
+		_ = os.Remove(strings.TrimSuffix(files[0], ".txnx") + ".idxx")
+		w, err = open()
+		if err != nil {
+			if errors.Is(err, codec.ErrDataCorrupted) {
+				return "err:corrupt"
+			}
+			return "err:other:" + strings.ReplaceAll(err.Error(), " ", "_")
+		}
+		first := w.LastOffset()
+		val := fmt.Sprintf("new-%04d", first+1)
+		if kv["same"] != "1" {
+			val += "xyz"
+		}
+		if err := w.AppendAsync(&proto.LogEntry{Term: 2, Offset: first + 1, Value: []byte(val)}); err != nil {
+			w.Close()
+			return fmt.Sprintf("first=%d err:append", first)
+		}
+		_ = w.Sync(context.Background())
+		_ = w.Close()
+		w, err = open()
+		if err != nil {
+			return fmt.Sprintf("first=%d err:reopen", first)
+		}
+		defer w.Close()
+		return fmt.Sprintf("first=%d second=%d", first, w.LastOffset())
 	case "cw.reopen":
 		powerMu.RLock()
 		defer powerMu.RUnlock()
@@ -454,6 +562,13 @@ func (C10) Oracle(ops, impl, model []string) string {
 			return fmt.Sprintf("op %d hangs", i)
 		}
 		f := strings.Fields(o)
+		if f[0] == "cw.stale" {
+			var a, b int64
+			if _, err := fmt.Sscanf(out, "first=%d second=%d", &a, &b); err == nil && b != a+1 {
+				return fmt.Sprintf("op %d: after the crash the log ended at %d; one entry was appended; after a restart the log ends at %d: entries that the recovery had discarded are returned as valid again", i, a, b)
+			}
+			continue
+		}
 		if f[0] == "cw.power" {
 			var sy, du int
 			if _, err := fmt.Sscanf(out, "synced=%d durable=%d", &sy, &du); err == nil && du < sy && !strings.HasSuffix(out, "durable=ok") {
